@@ -498,6 +498,15 @@ impl<'a> Run<'a> {
         };
         let checks: Vec<(&str, Box<dyn Fn(&Live) -> bool>)> = vec![
             ("clone", Box::new(|l: &Live| { let _c = l.ind.clone(); true })),
+            // the same calls on copies, while the original (and a second copy) are alive: sharing between copies must not show
+            ("clone-then-reset", Box::new(|l: &Live| { let a = l.ind.clone(); let mut b = a.clone(); b.reset(); let mut c = l.ind.clone(); c.reset(); drop(a); true })),
+            ("clone-then-next", Box::new(|l: &Live| {
+                let mut c = l.ind.clone();
+                let keep = c.clone();
+                if Ind::has_scalar(&l.cfg.kind) { c.next_s(1.5); } else { c.next_b(&Bar::one(1.5)); }
+                drop(keep);
+                true
+            })),
             ("display", Box::new(|l: &Live| !l.ind.display().is_empty())),
             ("debug", Box::new(|l: &Live| !l.ind.debug().is_empty())),
             ("bincode", Box::new(|l: &Live| match l.ind.save() { Ok(b) => Ind::restore(&l.cfg.kind, &b).is_ok(), Err(_) => false })),
@@ -868,7 +877,7 @@ impl<'a> Run<'a> {
         if has(&prop, "det_bits") {
             let mut h = DefaultHasher::new();
             l.cfg.key.hash(&mut h);
-            (unit.a.to_bits(), unit.b.to_bits(), unit.av.to_bits()).hash(&mut h);
+            (unit.a.to_bits(), unit.b.to_bits(), unit.av.to_bits(), unit.big.to_bits(), unit.nz).hash(&mut h);
             let ck = h.finish();
             let mut h2_ = DefaultHasher::new();
             for g in raw.iter() {
